@@ -591,7 +591,7 @@ class GetItem(Contract):
         yield "one-axis-per-array-dimension", len(S.shape(rv)) == len(kept) and len(result.axes) == len(kept)
         for j, d in enumerate(kept):
             Lr = result.axes[j].values
-            cnt, sd = sels[d]
+            cnt, sd = sels[d][0], sels[d][1]
             yield "dim%d:extent" % d, S.land(S.n(Lr) == cnt, S.shape(rv)[j] == cnt)
             yield "dim%d:labels-travel-with-the-selection" % d, S.forall(0, cnt, lambda k: S.at(Lr, k) == S.at(labels[d], sd(k)))
             if case["indexing"] == "label" and case["kinds"][d] == "array":
